@@ -10,11 +10,14 @@
   parameters holding the exact value of the double.  Library numerics are
   oracle parameters:
 
-    * `H : Sig → Sig × Sig` — analytic-signal phase and amplitude of one IMF
+    * `H : Sig → Sig × Amp` — analytic-signal phase and amplitude of one IMF
       (`scipy.signal.hilbert`, `np.angle`, `np.unwrap`, `scipy.signal.medfilt`,
       `np.abs`, the envelope interpolation used for the nht / quad amplitude);
+      an amplitude sample is `Option Rat`, `none` standing for NaN;
     * `E : Nat → Sig → Option Sig` — the combined envelope used by
       `amplitude_normalise` (iteration index, iterate ↦ envelope or `None`);
+    * `envU : Sig → Option Sig` — the upper envelope `interp_envelope(mode='upper')`
+      of the nht / quad amplitude (`None` on a column with too few peaks);
     * the table `s = sqrt(1 − nX²)` of the quadrature transform.
 
   `np.gradient`, `np.cumsum`, `%` and `np.unwrap` are modelled exactly (their
@@ -83,14 +86,20 @@ def phaseFromComplex (off twoPi : Rat) (wrapped : Bool) (U : List Rat) : List Ra
 /-! ## frequency_transform around the analytic-signal oracle -/
 
 /-- `frequency_transform` on one column.  `H imf = (U, A)`: `U` the smoothed
-    unwrapped angle of the analytic signal, `A` the instantaneous amplitude.
-    The implementation adds the quarter cycle (`phase_jump='ascending'`),
-    differentiates, and wraps the very same phase for output. -/
-def frequencyTransform (H : List Rat → List Rat × List Rat) (halfPi twoPi sr : Rat)
-    (x : List Rat) : List Rat × List Rat × List Rat :=
+    unwrapped angle of the analytic signal, `A` the instantaneous amplitude
+    (`none` = NaN sample).  The implementation adds the quarter cycle
+    (`phase_jump='ascending'`), differentiates, and wraps the very same phase for output. -/
+def frequencyTransform (H : List Rat → List Rat × List (Option Rat)) (halfPi twoPi sr : Rat)
+    (x : List Rat) : List Rat × List Rat × List (Option Rat) :=
   let UA := H x
   let P := UA.1.map fun u => u + halfPi
   (P.map (wrap twoPi), freqFromPhase twoPi sr P, UA.2)
+
+/-- `frequency_transform` with its failure on short input: on fewer than 2 samples the
+    implementation raises (`np.gradient`: ValueError; `quadrature_transform`: IndexError) -/
+def frequencyTransform? (H : List Rat → List Rat × List (Option Rat)) (halfPi twoPi sr : Rat)
+    (x : List Rat) : Option (List Rat × List Rat × List (Option Rat)) :=
+  if x.length < 2 then none else some (frequencyTransform H halfPi twoPi sr x)
 
 /-- analytic-signal pipeline of the `hilbert` branch with its library pieces as oracles -/
 structure Analytic where
@@ -100,15 +109,22 @@ structure Analytic where
   post : List Rat → List Rat              -- np.unwrap followed by medfilt(·, 5)
 
 /-- `hilbert` branch: phase and amplitude both from the analytic signal -/
-def Analytic.hilbertH (O : Analytic) (x : List Rat) : List Rat × List Rat :=
+def Analytic.hilbertH (O : Analytic) (x : List Rat) : List Rat × List (Option Rat) :=
   let z := O.hilbert x
-  (O.post (z.map O.angle), z.map O.abs)
+  (O.post (z.map O.angle), z.map fun w => some (O.abs w))
+
+/-- amplitude column of the `nht` / `quad` branches from the result of
+    `interp_envelope(imf, mode='upper')`: on a column with too few peaks that function returns
+    `None`, and `iamp[:, ii, jj] = None` stores NaN at each of the `n` samples -/
+def ampOfEnv (n : Nat) : Option (List Rat) → List (Option Rat)
+  | none => List.replicate n none
+  | some e => e.map some
 
 /-- `nht` branch: phase from the analytic signal of the amplitude-normalised IMF,
-    amplitude from the upper envelope `env` of the IMF itself -/
-def Analytic.nhtH (O : Analytic) (norm env : List Rat → List Rat) (x : List Rat) :
-    List Rat × List Rat :=
-  (O.post ((O.hilbert (norm x)).map O.angle), env x)
+    amplitude from the upper envelope `envU` of the IMF itself (NaN where there is none) -/
+def Analytic.nhtH (O : Analytic) (norm : List Rat → List Rat) (envU : List Rat → Option (List Rat))
+    (x : List Rat) : List Rat × List (Option Rat) :=
+  (O.post ((O.hilbert (norm x)).map O.angle), ampOfEnv x.length (envU x))
 
 /-! ## np.unwrap (period `m`, default discontinuity `m/2`) -/
 
@@ -183,12 +199,13 @@ def anTrace (E : Nat → List Rat → Option (List Rat)) (thresh : Rat) :
         (r.1, match r.2 with | none => some mg | some m2 => some (if m2 < mg then m2 else mg))
 
 /-- `quad` branch: phase from the quadrature signal `nX + i·q` of the clipped amplitude-normalised
-    IMF (`sqrtT` the `sqrt(1 − nX²)` table), amplitude from the upper envelope of the IMF itself -/
-def Analytic.quadH (O : Analytic) (norm env sqrtT : List Rat → List Rat) (x : List Rat) :
-    List Rat × List Rat :=
+    IMF (`sqrtT` the `sqrt(1 − nX²)` table), amplitude from the upper envelope of the IMF itself
+    (NaN where there is none) -/
+def Analytic.quadH (O : Analytic) (norm : List Rat → List Rat) (envU : List Rat → Option (List Rat))
+    (sqrtT : List Rat → List Rat) (x : List Rat) : List Rat × List (Option Rat) :=
   let nX := (norm x).map clip1
   let q := (quadImag? nX (sqrtT nX)).getD []
-  (O.post ((nX.zip q).map O.angle), env x)
+  (O.post ((nX.zip q).map O.angle), ampOfEnv x.length (envU x))
 
 /-! ## protocol -/
 
@@ -232,12 +249,16 @@ def handle (o : Op) : Option String :=
       let some sr := o.rat? "sr" | return "bad-op"
       let some x := o.vec? 0 | return "bad-op"
       let some u := o.vec? 1 | return "bad-op"
-      let some a := o.vec? 2 | return "bad-op"
+      -- amplitude table: |analytic signal| (hilbert) or the upper envelope (nht / quad), `none` when
+      -- interp_envelope returned None
+      let some a := o.slot? 2 | return "bad-op"
       if twoPi ≤ 0 then return "bad-op"
-      if u.length ≠ x.length ∨ a.length ≠ x.length then return "oracle-desync table lengths"
-      if x.length < 2 then return "err ValueError"
-      let r := frequencyTransform (fun _ => (u, a)) halfPi twoPi sr x
-      return s!"ok | {fmtVec r.1} | {fmtVec r.2.1} | {fmtVec r.2.2}"
+      if u.length ≠ x.length then return "oracle-desync table lengths"
+      if (match a with | some av => av.length != x.length | none => false) then
+        return "oracle-desync table lengths"
+      match frequencyTransform? (fun y => (u, ampOfEnv y.length a)) halfPi twoPi sr x with
+      | none => return "err ValueError"
+      | some r => return s!"ok | {fmtVec r.1} | {fmtVec r.2.1} | {fmtOptRats r.2.2}"
   | "PCS" => some <| Id.run do
       let some off := o.rat? "off" | return "bad-op"
       let some twoPi := o.rat? "twopi" | return "bad-op"
